@@ -92,7 +92,7 @@ def main():
     g = gen.G(chk.seed * 1000003 + 14)
     r = g.r
     events, meta = [], {}
-    n = chk.pick(2500, 80000)
+    n = chk.pick(1400, 80000)
     for i in range(n):
         p = r.choice([r.randint(1, 8), 10, 24, 53, 53, 100, r.randint(9, 200)])
         f = r.choice(["add", "sub", "mul", "div", "neg", "abs", "pow", "sqrt", "mul", "div"])
@@ -132,7 +132,10 @@ def main():
                 elif f == "sqrt": out = iv.sqrt(S)._mpi_
                 else:
                     nn = r.choice([0, 1, 2, 3, 4, 5, 6, -1, -2, -3, r.randint(2, 12)])
-                    out = (S ** nn)._mpi_
+                    out = (S ** nn)
+                    if not hasattr(out, "_mpi_"):
+                        continue                     # a complex-interval result (negative base): C15's business
+                    out = out._mpi_
         except (ZeroDivisionError, ValueError, lm.ComplexResult) as e:
             out = e
             mayraise = f in ("div", "pow", "sqrt")      # division by an interval containing zero / negative sqrt may raise
@@ -178,7 +181,7 @@ def conversion_events(chk, mpmath, g, start):
     r = g.r
     iv, mp = mpmath.iv, mpmath.mp
     events, meta = [], {}
-    for k in range(chk.pick(400, 8000)):
+    for k in range(chk.pick(250, 8000)):
         p = r.choice([5, 10, 24, 53, 100])
         iv.prec = p
         kind = r.choice(["int", "float", "mpf", "frac", "str", "strpm", "strrange"])
